@@ -116,6 +116,9 @@ def nests(leaf):
     yield "for-if-else", For(tn(I), N(IT), [If(call(4, i), [leaf], [EV(i)])])
     yield "for-for-else", For(tn(I), N(IT3), [For(tn(J), i, [leaf], [EV()])])
     yield "for-self-scope", For(tn(I), N(IT3), [For(tn(J), N(J), [leaf])])     # the inner iterable reads its own target
+    yield "for-shadow", For(tn(I), N(IT3), [For(tn(I), i, [leaf])])            # the inner for re-binds the outer variable
+    yield "for-shadow-cond", For(tn(I), N(IT3), [For(tn(J), i, [If(("bool", False, [call(0, i), C(True)]),
+                                                                   [For(tn(I), lst(j, j), [leaf])])])])
     yield "for-acc-iter", For(tn(I), N(X), [leaf])                             # iterates over the accumulator
     yield "for-acc-target", For(tn(X), N(IT), [leaf])                          # the accumulator is the loop variable
 
@@ -279,6 +282,8 @@ def fam_nested(tier, det):
     out.append([For(tn(I), N(IT3), [asg(Y, i), EV(), meth(X, "MExtend", N(Y))])])
     out.append([For(tn(I), N(IT3), [If(i, [asg(Y, i), meth(X, "MExtend", N(Y))])]), EV(N(X))])
     out.append([For(tn(I), N(IT3), [For(tn(J), i, [asg(Y, call(5, j)), meth(X, "MExtend", N(Y))])]), EV(N(X))])
+    out.append([asg(Y, lst()), For(tn(I), N(IT), [asg(Y, ("bin", "OAdd", N(Y), lst(i))), meth(X, "MExtend", N(Y))]), EV(N(X))])
+    out.append([asg(Y, C(0)), For(tn(I), N(IT3), [If(N(Y), [asg(Y, i), meth(X, "MExtend", N(Y))])]), EV(N(X))])
     out.append([asg(T.LETTER0, C(1)), For(tn(I), N(IT3), [meth(X, "MExtend", i)]), EV(N(T.LETTER0))])
     out.append([For(tn(T.LETTER0 + 1), N(IT3), [meth(X, "MExtend", N(T.LETTER0 + 1))]), EV(N(T.LETTER0))])
     return out
